@@ -13,6 +13,8 @@ pub fn opaque_string() -> (r: String) { unimplemented!() }
 #[verifier::external_body]
 pub fn diverge() -> ! { loop {} }
 
+global size_of usize == 8;
+
 pub type Inode = int;
 pub type FdId = int;
 pub type PathKey = int;
@@ -86,27 +88,33 @@ pub struct World {
     pub announced: nat,         // sum of StatusUpdate::Size accepted
     pub reported: nat,          // sum of StatusUpdate::Copied accepted
     pub errno: int,             // errno of the last failed libc call
+    pub eintr_left: nat,        // A-eintr: how many more times a read may still be interrupted (finite)
 }
 
 // ---------------------------------------------------------------- frames
 /// nothing but `files`, `trace`, `faults` may differ
 pub open spec fn fr_files(a: World, b: World) -> bool {
-    a.cursor == b.cursor && a.paths == b.paths && a.tolerated == b.tolerated
+    a.errno == b.errno && a.eintr_left == b.eintr_left && a.cursor == b.cursor && a.paths == b.paths && a.tolerated == b.tolerated
     && a.errors_sent == b.errors_sent && a.announced == b.announced && a.reported == b.reported
 }
 /// nothing but `files`, `cursor`, `trace`, `faults`, `errno` may differ (data path)
 pub open spec fn fr_data(a: World, b: World) -> bool {
-    a.paths == b.paths && a.tolerated == b.tolerated
+    a.errno == b.errno && a.paths == b.paths && a.tolerated == b.tolerated
     && a.errors_sent == b.errors_sent && a.announced == b.announced && a.reported == b.reported
 }
 /// nothing but `faults` (and errno) may differ
 pub open spec fn fr_ro(a: World, b: World) -> bool {
-    a.files == b.files && a.cursor == b.cursor && a.paths == b.paths && a.trace == b.trace && a.tolerated == b.tolerated
+    a.errno == b.errno && a.eintr_left == b.eintr_left && a.files == b.files && a.cursor == b.cursor && a.paths == b.paths && a.trace == b.trace && a.tolerated == b.tolerated
+    && a.errors_sent == b.errors_sent && a.announced == b.announced && a.reported == b.reported
+}
+/// like fr_data but errno may change too (libc calls)
+pub open spec fn fr_libc(a: World, b: World) -> bool {
+    a.paths == b.paths && a.tolerated == b.tolerated && a.eintr_left == b.eintr_left
     && a.errors_sent == b.errors_sent && a.announced == b.announced && a.reported == b.reported
 }
 /// the updater counters and the channel events only
 pub open spec fn fr_chan(a: World, b: World) -> bool {
-    a.files == b.files && a.cursor == b.cursor && a.paths == b.paths && a.tolerated == b.tolerated && a.faults == b.faults
+    a.errno == b.errno && a.eintr_left == b.eintr_left && a.files == b.files && a.cursor == b.cursor && a.paths == b.paths && a.tolerated == b.tolerated && a.faults == b.faults
 }
 /// every inode other than `i` is untouched, and no inode disappears or appears
 pub open spec fn others_same(a: Map<Inode, FileState>, b: Map<Inode, FileState>, i: Inode) -> bool {
@@ -114,7 +122,7 @@ pub open spec fn others_same(a: Map<Inode, FileState>, b: Map<Inode, FileState>,
 }
 /// `t1` extends `t0`
 pub open spec fn ext(t0: Seq<Event>, t1: Seq<Event>) -> bool {
-    t0.len() <= t1.len() && t1.take(t0.len() as int) == t0
+    t0.len() <= t1.len() && forall|k: int| 0 <= k < t0.len() ==> #[trigger] t1[k] == t0[k]
 }
 pub open spec fn is_write_on(e: Event, i: Inode) -> bool {
     e is Write && e->Write_0 == i
